@@ -460,6 +460,12 @@ fn run_worker(
         }
     }
 
+    #[cfg(nomt_verif)]
+    super::extend_range_protocol::verif::record_final(
+        &worker_params,
+        &new_branch_state.branches_tracker,
+    );
+
     Ok(BranchWorkerOutput {
         branches_tracker: new_branch_state.branches_tracker,
     })
@@ -517,6 +523,10 @@ pub mod verif {
     }
 
     impl StageEnv {
+        pub(crate) fn parts(&self) -> (&PagePool, &IoPool, &ThreadPool) {
+            (&self.page_pool, &self.io_pool, &self.thread_pool)
+        }
+
         pub fn new(io_workers: usize, threads: usize) -> Self {
             let page_pool = PagePool::new();
             let io_pool = io::start_io_pool(io_workers, page_pool.clone());
@@ -549,6 +559,24 @@ pub mod verif {
             cur = index.next_key(k);
         }
         out
+    }
+
+    /// The `WorkerParams` the private `prepare_workers` computes for this index, changeset and worker count.
+    pub fn prepare_view(
+        nodes: &[(Key, NodeHandle)],
+        changeset: &[(Key, Option<u32>)],
+        num_workers: usize,
+    ) -> Vec<super::super::extend_range_protocol::verif::ParamsView> {
+        let mut index = Index::default();
+        for (sep, node) in nodes {
+            index.insert(*sep, node.0.clone());
+        }
+        let changeset: Vec<(Key, Option<PageNumber>)> = changeset
+            .iter()
+            .map(|(k, pn)| (*k, pn.map(PageNumber)))
+            .collect();
+        let workers = super::prepare_workers(&index, &changeset, num_workers);
+        super::super::extend_range_protocol::verif::params_view(&workers)
     }
 
     /// `branch_stage::run` with `num_workers` workers on the index `{separator ↦ node}`; the bbn store is a fresh
